@@ -34,6 +34,114 @@ fn journal_commands() -> Vec<COp> {
     ]
 }
 
+/// One command of every journalled kind, in an order in which each is valid.
+fn every_journalled_kind() -> Vec<COp> {
+    vec![
+        COp::CreateStream(Some(1), "aaa".into()),
+        COp::CreateTopic(n(1), Some(1), "xxx".into(), 2),
+        COp::CreatePartitions(n(1), n(1), 2),
+        COp::DeletePartitions(n(1), n(1), 1),
+        COp::CreateGroup(n(1), n(1), Some(1), "ggg".into()),
+        COp::DeleteGroup(n(1), n(1), n(1)),
+        COp::UpdateTopic(n(1), n(1), "yyy".into(), 0),
+        COp::Send(n(1), n(1), 1, 2),
+        COp::PurgeTopic(n(1), n(1)),
+        COp::RenameStream(n(1), "bbb".into()),
+        COp::PurgeStream(n(1)),
+        COp::CreateUser("usr".into(), "pw-one-1".into()),
+        COp::SetPerms(n(2), 3),
+        COp::RenameUser(n(2), "usr2".into()),
+        COp::ChangePassword(n(2), "pw-one-1".into(), "pw-two-2".into()),
+        COp::SetStatus(n(2), false),
+        COp::CreatePat("tok".into(), 0),
+        COp::DeletePat("tok".into()),
+        COp::DeleteUser(n(2)),
+        COp::DeleteTopic(n(1), n(1)),
+        COp::DeleteStream(n(1)),
+    ]
+}
+
+/// "...so that the server can start from it": after every acknowledged command of every journalled kind, issued
+/// over the binary protocol or over HTTP, the journal the server itself wrote must load (every entry's command
+/// decodable, indices consecutive), and the server must start from it.
+fn own_journal(encrypted: bool, http: bool, res: &mut JobResult) {
+    let scratch = Scratch::new("C11-own");
+    let cfg = NodeCfg { threshold: 1, tick: 1, encryption: encrypted as u8, ..Default::default() };
+    let tpl = crate::cat::build_cat_template(&scratch, &cfg, &[], if encrypted { "oenc" } else { "oplain" });
+    let mut w = CatWorld::new(&scratch, &tpl, if http { Transports::BOTH } else { Transports::TCP }).expect("world");
+    w.http_admin = http;
+    let rt = tokio::runtime::Builder::new_current_thread().enable_all().max_blocking_threads(1).build().unwrap();
+    let path = scratch.named("own.log");
+    let label = format!("{},{}", if encrypted { "encrypted" } else { "plain" }, if http { "http" } else { "tcp" });
+    let mut entries_before = 0usize;
+    let mut done: Vec<String> = Vec::new();
+    let mut v = |key: String, message: String, done: &Vec<String>| Violation {
+        property: "C11".into(),
+        key,
+        message,
+        replay: json!({"kind": "own-journal", "encrypted": encrypted, "http": http, "commands": done}),
+    };
+    for op in every_journalled_kind() {
+        res.executions += 1;
+        res.evaluations += 1;
+        crate::run::breadcrumb(&json!({"own_journal": label, "command": op.short()}));
+        let out = w.apply(&op);
+        done.push(op.short());
+        if !out.ok {
+            res.violations.push(v(format!("C11:own-journal:{label}:valid-command-refused"), format!("{label}: valid command {} refused: {}", op.short(), out.err), &done));
+            break;
+        }
+        w.node.quiesce(4);
+        let bytes = std::fs::read(w.dir.join("state/log")).expect("state log");
+        res.nontrivial_keys.push(hash64(&bytes));
+        match load(&rt, &path, &bytes, encrypted) {
+            Loaded::Ok(e) => {
+                if e.iter().enumerate().any(|(i, x)| x.index != i as u64) || e.len() < entries_before {
+                    res.violations.push(v(
+                        format!("C11:own-journal:{label}:indices-not-consecutive"),
+                        format!("{label}: after {} the journal holds indices {:?}", op.short(), e.iter().map(|x| x.index).collect::<Vec<_>>()),
+                        &done,
+                    ));
+                    break;
+                }
+                if e.len() > entries_before {
+                    res.bump("journalled_commands_loaded_back");
+                }
+                entries_before = e.len();
+            }
+            Loaded::Err(e) => {
+                let kind = op.short().split('(').next().unwrap_or("").to_string();
+                res.violations.push(v(
+                    format!("C11:own-journal:{label}:does-not-load-after:{kind}"),
+                    format!("{label}: after the acknowledged command {} the journal the server wrote itself is refused by the loader: {e}", op.short()),
+                    &done,
+                ));
+                break;
+            }
+            Loaded::Panic(p) => {
+                res.violations.push(v(format!("C11:own-journal:{label}:loader-panicked"), format!("{label}: after {} the loader panicked on the untouched journal: {p}", op.short()), &done));
+                break;
+            }
+        }
+        // the server starts from it
+        if let Err(e) = w.restart() {
+            let kind = op.short().split('(').next().unwrap_or("").to_string();
+            res.violations.push(v(
+                format!("C11:own-journal:{label}:server-does-not-start-after:{kind}"),
+                format!("{label}: after the acknowledged command {} the server does not start from its own journal: {e}", op.short()),
+                &done,
+            ));
+            break;
+        }
+        w.http_admin = http;
+        res.bump("restarts_from_own_journal");
+    }
+    if res.samples.len() < 2 {
+        res.samples.push(json!({"own_journal": label, "commands": done, "entries": entries_before}));
+    }
+    w.finish();
+}
+
 /// A valid journal written by the real handlers: returns its bytes.
 fn make_journal(scratch: &Scratch, encrypted: bool) -> Vec<u8> {
     let cfg = NodeCfg { threshold: 1, tick: 1, encryption: encrypted as u8, ..Default::default() };
@@ -115,13 +223,19 @@ pub fn plan(tier: &str) -> (PropMeta, Vec<Job>) {
             }
         }
     }
+    for encrypted in [false, true] {
+        for http in [false, true] {
+            jobs.push(Job { prop: "C11".into(), tier: tier.into(), spec: json!({"part": "own-journal", "encrypted": encrypted, "http": http}) });
+        }
+    }
     let (m2, j2) = crate::props::schedp::plan_c11(tier);
     jobs.extend(j2);
     let meta = PropMeta {
         id: "C11",
         level: "model_checking",
         rule: format!(
-            "(c) tamper evidence: a valid journal of {} entries written by the real handlers (plain and encrypted) is mutated exhaustively - every byte position x {} , every truncation length, removal / duplication of every entry, every transposition of two entries, appended garbage - and each variant is given to the real loader (FileState::init, then every loaded entry's command is decoded); (a)+(b) {}",
+            "(d) own journal: one command of every journalled kind ({} commands), over the binary protocol and over HTTP, plain and encrypted: after every acknowledged command the journal the server wrote loads (every entry's command decodable, indices consecutive) and the server starts from it; (c) tamper evidence: a valid journal of {} entries written by the real handlers (plain and encrypted) is mutated exhaustively - every byte position x {} , every truncation length, removal / duplication of every entry, every transposition of two entries, appended garbage - and each variant is given to the real loader (FileState::init, then every loaded entry's command is decoded); (a)+(b) {}",
+            every_journalled_kind().len() - 1,
             journal_commands().len() + 1,
             if full { "all 255 other values" } else { "8 single-bit flips" },
             m2
@@ -271,6 +385,10 @@ pub fn run_job(job: &Job) -> JobResult {
             crate::node::install_verbose_logging();
             tamper(&tj, &mut res);
         }
+        Some("own-journal") => {
+            crate::node::install_verbose_logging();
+            own_journal(job.spec["encrypted"].as_bool().unwrap_or(false), job.spec["http"].as_bool().unwrap_or(false), &mut res);
+        }
         _ => return crate::props::schedp::run_job(job),
     }
     res.nontrivial_keys.sort();
@@ -278,6 +396,11 @@ pub fn run_job(job: &Job) -> JobResult {
     res
 }
 
-pub fn replay(_r: &Value) -> Vec<Violation> {
+pub fn replay(r: &Value) -> Vec<Violation> {
+    if r["kind"] == "own-journal" {
+        let mut res = JobResult::default();
+        own_journal(r["encrypted"].as_bool().unwrap_or(false), r["http"].as_bool().unwrap_or(false), &mut res);
+        return res.violations;
+    }
     Vec::new()
 }
